@@ -23,6 +23,7 @@ func init() {
 }
 
 func runC04(r *Run) {
+	contextProvenanceRules(r) // IsReceived / sequencer are read from the block's previous
 	r.Alias("$b", "recv.block")
 	r.Alias("$send", "recv.momentumStore.GetAccountBlockByHash($b.FromBlockHash)")
 	r.Alias("$front", "recv.accountStore.SequencerFront(recv.momentumStore.GetAccountMailbox($b.Address))")
